@@ -48,3 +48,13 @@ Example C05_nonvacuous : well_formed ex_g ex_fields /\ ex_fields <> [] /\
   Rewritten {| q_metrics := ["orders.revenue"]; q_dims := ["orders.created__month"; "orders.status"]; q_filters := ["status = 'a'"; "revenue > 1"]; q_order := ["m"];
                q_limit := Some 5; q_offset := None; q_aliases := [("orders.created__month", "m")] |}.
 Proof. exact ex_wf. Qed.
+
+Require V.Gen.RewriterTable_gen V.Proofs.C05_table_proofs.
+(* the SELECT-list extraction, regenerated: Gen/RewriterTable_gen.v holds what QueryRewriter._extract_metrics_and_dimensions (with _resolve_column inlined) returns on 330
+   scripted scenarios -- five FROM situations (none, a model with a field that is both dimension and measure, another model, FROM metrics, an unknown table) x SELECT lists of
+   stars, literals, function calls and columns (five table qualifiers x eleven names incl. granularity suffixes, unknown suffixes, graph-level metric names, aliases, the same
+   reference aliased twice) -- extracted from query_rewriter.py on every run by executing the methods' ASTs against scripted sqlglot classes and a scripted graph (fail closed,
+   validated against CPython).  The extraction model of Model/Rewriter.v (the one C05_qualified / C05_unqualified / C05_reject_* are about) returns the same metrics,
+   dimensions and alias map, and rejects exactly the lists the method raises on. *)
+Theorem C05_extract_table : forallb V.Proofs.C05_table_proofs.extract_row_ok V.Gen.RewriterTable_gen.extract_rows = true.
+Proof. exact V.Proofs.C05_table_proofs.extract_table_ok. Qed.
